@@ -80,9 +80,22 @@ def gen_atom(rng, names, rich, ctx):
             return ["cmp", rng.choice(CMP), ["attr", ["var", v], "f"],
                     ["attr", ["var", w], "f"] if rng.random() < 0.5 else ["lit", rng.choice([0.0, 1.0, 2.5])]]
         return ["cmp", rng.choice(CMP), ["attr", ["var", v], "fs"], ["attr", ["var", w], "fs"]]
-    if k < 0.98:
+    if k < 0.975:
         w = rng.choice(names)
         return ["cmp", rng.choice(CMP), ["fn", "sum_ab", {"x": ["var", v], "y": ["var", w]}], ["lit", rng.randint(1, 4)]]
+    if k < 0.987:
+        # a method call / an index whose argument is itself a term over a (possibly different) variable
+        w = rng.choice(names)
+        arg = norm_term(scalar_term(rng, w, rich, ctx))
+        r = rng.random()
+        if r < 0.45:
+            t = ["call", ["var", v], "m", [arg]]
+        elif r < 0.7:
+            first = rng.randint(0, 1) if rng.random() < 0.5 else norm_term(scalar_term(rng, w, rich, ctx))
+            t = ["call", ["var", v], "plus", [first, arg]]
+        else:
+            t = ["idx", ["attr", ["var", v], "d"], ["call", ["var", w], "key", []]]
+        return ["cmp", rng.choice(CMP), t, ["lit", rng.randint(0, 3)]]
     return ["truth", ["call", ["var", v], "pos", []]]
 
 
